@@ -195,9 +195,11 @@ def t_normalized(family, D, N, order, seed, s=1.0, t=1.0):
         b = 1.4 * s / t
         be = U.normalize_convection_scale(b, domain_extent=L, dt=dt)
         de = be * M * N * D           # documented formula, not the library's own reduce function (an inverse pair can be wrong consistently)
-        gen = G.GeneralConvectionStepper(D, L, N, dt, linear_coefficients=a, convection_scale=b, order=order)
-        nor = G.NormalizedConvectionStepper(D, N, normalized_linear_coefficients=al, normalized_convection_scale=be, order=order)
-        dif = G.DifficultyConvectionStepper(D, N, linear_difficulties=ga, convection_difficulty=de, maximum_absolute=M, order=order)
+        fl = (dict(), dict(conservative=True), dict(single_channel=True), dict(single_channel=True, conservative=True))[seed % 4] if D >= 2 else \
+            (dict(), dict(conservative=True))[seed % 2]
+        gen = G.GeneralConvectionStepper(D, L, N, dt, linear_coefficients=a, convection_scale=b, order=order, **fl)
+        nor = G.NormalizedConvectionStepper(D, N, normalized_linear_coefficients=al, normalized_convection_scale=be, order=order, **fl)
+        dif = G.DifficultyConvectionStepper(D, N, linear_difficulties=ga, convection_difficulty=de, maximum_absolute=M, order=order, **fl)
     elif family == "gradient_norm":
         b = 0.9 * s * s / t
         be = U.normalize_gradient_norm_scale(b, domain_extent=L, dt=dt)
@@ -287,6 +289,9 @@ def witness(ctx):
         for fam in ("linear", "convection", "gradient_norm", "polynomial", "nonlinear"):
             for order in ((2,) if not deep else (0, 1, 2, 3, 4)):
                 ctx.check("normalized", dict(family=fam, D=D, N=N, order=order, seed=ctx.seed))
+        if D >= 2:      # every flag combination of the convection family (the flags select a different nonlinear term)
+            for k in range(1, 4):
+                ctx.check("normalized", dict(family="convection", D=D, N=N, order=2, seed=ctx.seed + k))
         for fam in ("linear", "convection", "gradient_norm", "polynomial"):
             ctx.check("rescale", dict(family=fam, D=D, N=N, order=2, seed=ctx.seed))
     for i in range(3):
